@@ -369,3 +369,22 @@ def run(ck):
             ck.ob('C17.fields', 'C17.fields/%s.%s' % (r, fld['n']), in_enc and in_dec, enc.loc(),
                   '%s::%s is serialised by encode_manifest and restored by decode_manifest' % (r, fld['n']))
     ck.floor('C17.fields', 'fields of the manifest records', nfields, 20)
+
+    # ---- the base64 body handed to the decoder is the URI minus the scheme, unmodified -----------------------------
+    from sa.paths import local_writes
+    from sa.flow import origin_chain
+    b64 = [i for i in dec.walk() if dec.nodes[i].get('callee', '').endswith('::base64_decode')]
+    ck.floor('C17.uri', 'base64_decode calls in decode_manifest', len(b64), 1)
+    arg = dec.call_args(b64[0])[0]
+    chain = list(origin_chain(dec, arg))
+    sub = [j for j in chain if dec.nodes[j].get('callee', '').endswith('::substr')]
+    ok = False
+    if sub:
+        r = dec.receiver(sub[0])
+        explicit = [a for a in dec.call_args(sub[0]) if dec.nodes[a]['k'] != 'CXXDefaultArgExpr']
+        ok = r is not None and dec.nodes[r].get('d') == dec.params[0]['d'] and len(explicit) == 1
+        an = dec.nodes[dec.strip(arg)]
+        if ok and an['k'] == 'DeclRefExpr' and an.get('dk') == 'Var':
+            ok = not local_writes(dec, an['d'])
+    ck.ob('C17.uri', 'C17.uri/body-unmodified', ok, dec.loc(b64[0]),
+          'base64_decode receives uri.substr(strlen(scheme)) as is — no trimming or rewriting of characters that belong to the base64 alphabet')
